@@ -99,13 +99,33 @@ def h_containers(env, mapping, n, utd):
         for f in itertools.product((0, 1), repeat=n):
             ref = tuple(int(x) for x in get_mapped_vector(np.array(f, dtype=int), mapping, utd))
             for nm, v in (("list", list(f)), ("tuple", tuple(f)), ("bool array", np.array(f, dtype=bool)),
-                          ("float array", np.array(f, dtype=float)), ("list of bool", [bool(x) for x in f])):
+                          ("float array", np.array(f, dtype=float)), ("list of bool", [bool(x) for x in f]), ("int array", np.array(f, dtype=int))):
+                keep = list(v)
                 try:
                     got = tuple(int(x) for x in get_mapped_vector(v, mapping, utd))
                 except Exception as e:       # noqa
                     got = f"{type(e).__name__}: {e}"
                 if got != ref:
                     bad.append((f, nm, got, ref))
+                if list(v) != keep:
+                    bad.append((f, nm, "the caller's vector was modified", list(v), keep))
+            if utd:
+                # the ordering flag as a numpy boolean / the integer 1 (results of numpy comparisons) means the same as True
+                for flag in (np.bool_(True), 1):
+                    got = tuple(int(x) for x in get_mapped_vector(np.array(f, dtype=int), mapping, flag))
+                    if got != ref:
+                        bad.append((f, f"up_then_down={flag!r}", got, ref))
+        if utd:
+            from tangelo.toolboxes.operators import FermionOperator
+            from tangelo.toolboxes.qubit_mappings.mapping_transform import fermion_to_qubit_mapping
+            kw = dict(n_spinorbitals=n, n_electrons=2, spin=0) if mapping.lower() == "scbk" else dict(n_spinorbitals=n)
+            for p in range(n):
+                op = FermionOperator(((p, 1), (p, 0))) + FermionOperator(((p, 1), ((p + 2) % n, 0)), 0.5) + FermionOperator((((p + 2) % n, 1), (p, 0)), 0.5)
+                ref_op = dict(fermion_to_qubit_mapping(op, mapping, up_then_down=True, **kw).terms)
+                for flag in (np.bool_(True), 1):
+                    got_op = dict(fermion_to_qubit_mapping(op, mapping, up_then_down=flag, **kw).terms)
+                    if set(got_op) != set(ref_op) or any(abs(complex(got_op[k]) - complex(ref_op[k])) > 1e-12 for k in got_op):
+                        bad.append((p, f"operator encoder with up_then_down={flag!r} differs from up_then_down=True"))
     env.check_true(not bad, f"get_mapped_vector[{mapping}, up_then_down={utd}, n={n}] encodes every container type like the integer array",
                    detail=str(bad[:3]))
 
